@@ -227,6 +227,28 @@ static int check_packed(vf_report *rep, uint64_t row, uint64_t col) {
                        "(%llu,%llu)",
                        U(row), U(col), U(packed), (unsigned)d, U(r3), U(c3));
     }
+    /* the macro is also used with the narrowest destinations that can hold
+     * the coordinates (a supported pair has coordinates < 2^32) */
+    if (row <= UINT32_MAX && col <= UINT32_MAX) {
+        uint32_t r4 = ~(uint32_t)row, c4 = ~(uint32_t)col;
+        varintDimensionUnpack_(r4, c4, packed, d);
+        if (r4 != row || c4 != col) {
+            return vf_fail(rep, "packed.roundtrip", "value",
+                           "Pack(%llu,%llu) = 0x%llx level %u: Unpack_ macro "
+                           "into uint32_t gives (%u,%u)",
+                           U(row), U(col), U(packed), (unsigned)d, r4, c4);
+        }
+    }
+    if (row <= UINT16_MAX && col <= UINT16_MAX) {
+        uint16_t r5 = (uint16_t)~row, c5 = (uint16_t)~col;
+        varintDimensionUnpack_(r5, c5, packed, d);
+        if (r5 != row || c5 != col) {
+            return vf_fail(rep, "packed.roundtrip", "value",
+                           "Pack(%llu,%llu) = 0x%llx level %u: Unpack_ macro "
+                           "into uint16_t gives (%u,%u)",
+                           U(row), U(col), U(packed), (unsigned)d, r5, c5);
+        }
+    }
     return 0;
 }
 
